@@ -145,6 +145,16 @@ CLAIMED = {
                 "its collection. URL correctness from every page and code-span verbatimness depend on relpath and python-markdown: bounded stand-in only (14 references).",
         "note": "find_child itself (run-time attribute names) is outside the subset.",
     },
+    "C13": {
+        "engines": ["A", "S", "Bd"],
+        "technique": "contract-based deductive verification of FortranGraph.add_to_graph and GraphManager.register (VCs from the ASTs, sets as aliasable containers with an "
+                     "uninterpreted cardinality, z3); structural obligations on every add_node edge site and every node-constructor adjacency registration",
+        "text": "Proved: add_to_graph adds the hop exactly when |hop| + |drawn| <= max_nodes, else leaves the drawn set untouched and records the truncation depth; register honours "
+                "`graph: false`. Per edge site: the far endpoint is in the drawn set or is put into the hop set first (so no dangling edge once the hop is added); per adjacency "
+                "insertion: its inverse is inserted in the same block; 'used by' / 'inherited by' / 'called by' walk the inverse adjacency with flipped edges. get_call_nodes, the "
+                "recursion depth bound and everything graphviz does are not under contract; 5 real builds of a project with cycles, a diamond and limits stand in (not counted).",
+        "note": "Partial; structural obligations are syntactic.",
+    },
 }
 _NB = "no obligations built yet for this property in the current commit (planned in DESIGN.md section 6; technique not switched)"
-NOT_APPLICABLE = {p: _NB for p in ["C09", "C13", "C16", "C17", "C18", "C20"]}
+NOT_APPLICABLE = {p: _NB for p in ["C09", "C16", "C17", "C18", "C20"]}
